@@ -20,6 +20,7 @@ def generate(seed, tier="quick", prop=PROPERTY, logprobs=0.0, all_logprobs=0.1):
     if d.get("orbit_from"):
         d["orbit_from"] = [0, d["orbit_from"][1] % lib["n"]]
     nan_lib = sampling.add_nan_library(rnd, cfg, 0, p=0.12)
+    sampling.add_neg_inf_profile(rnd, cfg, 0, p=0.15)
     N = lib["n"]
     ops = []
     for oid in range(rnd.randint(2, 4)):
@@ -87,8 +88,9 @@ def judge_rejection(dep, rec, L, prop, probes):
     import numpy as np
 
     if rec["raised"] is not None:
-        if len(E) and np.any(np.isnan(ll)):
-            probe("raised_with_nan_likelihood")
+        if len(E) and (np.any(np.isnan(ll)) or not np.any(np.isfinite(ll))):
+            # NaN likelihoods, or no finite value at all among the evaluated rows: outside the quantifier
+            probe("raised_with_nan_or_no_finite_likelihood")
             return v, info
         v.append(Violation(prop, prop + ".raises", sig + ":raises:%s" % rec["raised"][-1][0], "op %s raised %s" % (op, rec["raised"])))
         return v, info
@@ -156,4 +158,6 @@ def evaluate(dep, program):
         vv, info = judge_rejection(dep, rec, L, PROPERTY, probes)
         v += vv
     probes["lstar_evals"] = L.evals
+    if program["config"].get("ll_override"):
+        probes["runs_with_neg_inf_profile_stub(kernel output overridden)"] = 1
     return v, probes
